@@ -354,7 +354,114 @@ def _eval_const(expr):
     return int(eval(e, {'__builtins__': {}}))
 
 
+def _charcode(lit):
+    body = lit[1:-1]
+    esc = {'\\r': 13, '\\n': 10, '\\t': 9, "\\'": 39, '\\\\': 92, '\\0': 0}
+    if body in esc:
+        return esc[body]
+    if len(body) != 1:
+        raise ValueError('char literal %r' % lit)
+    return ord(body)
+
+
+def translate_str_tables(repo, lean):
+    """(G) the two `match c` tables of `from_str_radix` (src/string.rs) with the two radix bounds, as data: one row per arm and
+    alternative, in source order: (lo, hi, kind, a, b) — kind 0: digit `c - a + b`, 1: ignored, 2: the constant digit `a`.
+    `Gen/StrTableFacts.lean` re-proves on every run that they are the tables the model's `classify` was proved against."""
+    tpath = os.path.join(lean, 'Ruint', 'Gen', 'StrTable.lean')
+    fpath = os.path.join(lean, 'Ruint', 'Gen', 'StrTableFacts.lean')
+    try:
+        src = open(os.path.join(repo, 'src', 'string.rs')).read()
+        body = src[src.index('pub fn from_str_radix'):]
+        body = body[:body.index('\n    }\n')]
+        rmax = int(re.search(r'if radix > (\d+) \{\s*return Err\(ParseError::InvalidRadix', body).group(1))
+        lmax = int(re.search(r'let digit = if radix <= (\d+) \{', body).group(1))
+        blocks = re.findall(r'match c \{(.*?)\n                \}', body, re.S)
+        if len(blocks) != 2:
+            raise ValueError('expected two `match c` tables, found %d' % len(blocks))
+        tables = []
+        for blk in blocks:
+            rows = []
+            blk = blk + '\n'
+            arms = re.findall(r"\n\s*((?:'(?:\\.|[^'\\])'(?:\.\.='(?:\\.|[^'\\])')?\s*\|?\s*)+|_)\s*=>\s*(\{.*?\n\s*\}|[^\n]*?),?(?=\n)", blk, re.S)
+            seen_default = False
+            for pat, rhs in arms:
+                pat = pat.strip()
+                rhs = rhs.strip().rstrip(',')
+                if pat == '_':
+                    if 'InvalidDigit' not in rhs:
+                        raise ValueError('default arm is not the InvalidDigit arm')
+                    seen_default = True
+                    continue
+                if seen_default:
+                    raise ValueError('arm after the default arm')
+                m0 = re.fullmatch(r"u64::from\(c\) - u64::from\(('(?:\\.|[^'\\])')\)(?: \+ (\d+))?", rhs)
+                if m0:
+                    kind, a, b = 0, _charcode(m0.group(1)), int(m0.group(2) or 0)
+                elif re.fullmatch(r'\d+', rhs):
+                    kind, a, b = 2, int(rhs), 0
+                elif rhs.startswith('return None'):
+                    kind, a, b = 1, 0, 0
+                else:
+                    raise ValueError('arm not understood: %r => %r' % (pat, rhs))
+                for alt in [x.strip() for x in pat.split('|') if x.strip()]:
+                    mr = re.fullmatch(r"('(?:\\.|[^'\\])')\.\.=('(?:\\.|[^'\\])')", alt)
+                    if mr:
+                        lo, hi = _charcode(mr.group(1)), _charcode(mr.group(2))
+                    else:
+                        lo = hi = _charcode(alt)
+                    rows.append((lo, hi, kind, a, b))
+            if not seen_default or not rows:
+                raise ValueError('table without arms or default')
+            tables.append(rows)
+
+        def lst(rows):
+            return '[' + ', '.join('(%d, %d, %d, %d, %d)' % r for r in rows) + ']'
+        new = '\n'.join([
+            '/-! GENERATED by tools/props/c09.py (`translate_str_tables`) from `src/string.rs` — do not edit.',
+            '    The two `match c` tables of `from_str_radix`, one row per arm and alternative in source order:',
+            '    (lo, hi, kind, a, b) — kind 0: digit `c - a + b` for `lo ≤ c ≤ hi`; 1: ignored character; 2: the constant digit `a`.',
+            '    Characters matching no row take the `InvalidDigit` arm. `lowMax`: `radix <= lowMax` selects the first table;',
+            '    `radixMax`: larger radices are `InvalidRadix`. -/',
+            'namespace Ruint.Gen.StrTable', '',
+            'def low : List (Nat × Nat × Nat × Nat × Nat) := ' + lst(tables[0]),
+            'def high : List (Nat × Nat × Nat × Nat × Nat) := ' + lst(tables[1]),
+            'def lowMax : Nat := %d' % lmax,
+            'def radixMax : Nat := %d' % rmax, '',
+            'end Ruint.Gen.StrTable', ''])
+        newf = '\n'.join([
+            'import Ruint.Gen.StrTable',
+            '/-! GENERATED by tools/props/c09.py — do not edit. Re-proved on every run: the tables extracted from the current',
+            '    `src/string.rs` are the ones `Props/C09.gen_classify_eq` relates to the model\'s `classify`. -/',
+            'namespace Ruint.Gen.StrTable', '',
+            'theorem tables_expected :',
+            '    low = [(48, 57, 0, 48, 0), (97, 122, 0, 97, 10), (65, 90, 0, 65, 10), (95, 95, 1, 0, 0)]',
+            '    ∧ high = [(65, 90, 0, 65, 0), (97, 122, 0, 97, 26), (48, 57, 0, 48, 52), (43, 43, 2, 62, 0), (45, 45, 2, 62, 0),',
+            '        (47, 47, 2, 63, 0), (44, 44, 2, 63, 0), (95, 95, 2, 63, 0), (61, 61, 1, 0, 0), (13, 13, 1, 0, 0), (10, 10, 1, 0, 0)]',
+            '    ∧ lowMax = 36 ∧ radixMax = 64 := by decide', '',
+            'end Ruint.Gen.StrTable', ''])
+        changed = False
+        for pth, txt in ((tpath, new), (fpath, newf)):
+            old = open(pth).read() if os.path.exists(pth) else ''
+            if old != txt:
+                open(pth, 'w').write(txt)
+                changed = True
+        return {'changed': changed, 'obligations': ['Ruint.Gen.StrTable.tables_expected'],
+                'tables': {'low': tables[0], 'high': tables[1], 'lowMax': lmax, 'radixMax': rmax}}
+    except Exception as e:  # anchor vanished: the tie is unavailable
+        return {'changed': False, 'unavailable': 'string.rs table anchors not found: %r' % (e,), 'obligations': []}
+
+
 def translate(repo, lean):
+    r = _translate_fmt(repo, lean)
+    st = translate_str_tables(repo, lean)
+    r['changed'] = bool(r.get('changed')) or bool(st.get('changed'))
+    r['obligations'] = list(r.get('obligations', [])) + list(st.get('obligations', []))
+    r['str_tables'] = st
+    return r
+
+
+def _translate_fmt(repo, lean):
     path = os.path.join(lean, 'Ruint', 'Gen', 'FmtTable.lean')
     old = open(path).read() if os.path.exists(path) else ''
     try:
